@@ -821,6 +821,7 @@ def _markbit_rule(chk, prog):
         if mv is not None and mv.k == "ref":
             marknames.add(mv.name)
     guards = {}      # (rec, flagfield, mask) -> (pointer field, mark function)
+    wholeword = []
     for fn in prog.all_funcs():
         if not (fn.name in marknames or (fn.tu.name == "gc.c" and fn.name.startswith("janet_mark"))):
             continue
@@ -835,6 +836,12 @@ def _markbit_rule(chk, prog):
             ptrs = [y for y in x.args[0].walk() if y.k == "mem" and y.rec]
             for ps in S:
                 for (op, l, r, toks, ln, rn) in ps:
+                    if ln is not None and op == "==" and rn is not None and (rn.v or 0) != 0 and strip_casts(ln).k == "mem" and strip_casts(ln).rec:
+                        # the whole flag word is compared with one bit's value
+                        a = strip_casts(ln)
+                        for pf in ptrs:
+                            if pf.rec == a.rec and pf.field != a.field:
+                                wholeword.append((fn, x, a, rn.v, pf))
                     if ln is None or op != "!=" or not (rn is None or rn.v == 0):
                         continue
                     b = strip_casts(ln)
@@ -846,7 +853,22 @@ def _markbit_rule(chk, prog):
                             for pf in ptrs:
                                 if pf.rec == a.rec and pf.field != a.field:
                                     guards[(a.rec, a.field, m.v)] = (pf.field, fn.name)
-    if not guards:
+    seen_ww = set()
+    for (fn, x, a, val, pf) in wholeword:
+        if (fn.name, a.field) in seen_ww:
+            continue
+        # other bits of the same word are set somewhere: then "word == bit" is false although the bit is set
+        others = [y for g in prog.all_funcs() for y in g.nodes if y.k == "asg" and y.op in ("|=", "=") and y.kids[0].k == "mem"
+                  and y.kids[0].rec == a.rec and y.kids[0].field == a.field and strip_casts(y.kids[1]).v is not None
+                  and (strip_casts(y.kids[1]).v & ~val) != 0]
+        if others:
+            seen_ww.add((fn.name, a.field))
+            chk.instance(rule)
+            chk.violation(rule, fn.tu.name, fn.name, "%s.%s==%s" % (a.rec, a.field, val), x.loc,
+                          "%s marks %s.%s only when the whole flag word %s equals %#x, but other bits are set in that word elsewhere "
+                          "(`%s` at %s): once both are set the object the field points to is not marked and the next collection frees it "
+                          "while the field still refers to it" % (fn.name, pf.rec, pf.field, a.field, val, others[0].text()[:40], others[0].loc))
+    if not guards and not seen_ww:
         raise AnalysisBroken("no flag-guarded mark found (the parser's generated-error bit was confirmed by hand)")
     for (rec, ff, mask), (pf, mfn) in sorted(guards.items()):
         for fn in prog.all_funcs():
@@ -880,7 +902,7 @@ def _markbit_rule(chk, prog):
                                   "`%s` can clear bit 0x%x of %s.%s, the bit under which %s marks %s.%s, and %s does not replace that "
                                   "pointer: an object it still points at is no longer marked and the next collection frees it" % (
                                       st.text()[:50], mask, rec, ff, mfn, rec, pf, fn.name))
-    chk.floor(rule, 4)
+    chk.floor(rule, 1 if seen_ww else 4)
 
 
 VIEW_SOURCES = ("janet_getbytes", "janet_optbytes")
